@@ -38,4 +38,30 @@ void h_l2_set8(void)    { nni_id_map *m; uint64_t id; void *v; VP_HAVOC_GHOSTS()
 void h_l2_remove8(void) { nni_id_map *m; uint64_t id; VP_HAVOC_GHOSTS(); id_reg_num = nondet_int(); nni_id_remove(m, id); VP_CANARY(); }
 void h_l2_alloc8(void)  { nni_id_map *m; uint64_t *idp; void *v; VP_HAVOC_GHOSTS(); id_reg_num = nondet_int(); nni_id_alloc(m, idp, v); VP_CANARY(); }
 /* keeps the contract-only symbols of l2.h in the symbol table (never called) */
-void vp_l2_refs(void) { l2_find8(NULL, 0); l2_get8(NULL, 0); l2_set8(NULL, 0, NULL); l2_remove8(NULL, 0); l2_alloc8(NULL, NULL, NULL); }
+void h_l2_resize8(void) { nni_id_map *m; VP_HAVOC_GHOSTS(); id_reg_num = nondet_int(); id_resize(m); VP_CANARY(); }
+void h_l2_set_first(void) { nni_id_map *m; uint64_t id; void *v; VP_HAVOC_GHOSTS(); id_reg_num = nondet_int(); nni_id_set(m, id, v); VP_CANARY(); }
+void h_l2_grow8(void) { nni_id_map *m; VP_HAVOC_GHOSTS(); id_reg_num = nondet_int(); id_resize(m); VP_CANARY(); }
+void vp_l2_refs(void) { l2_grow8(NULL); l2_set_first(NULL, 0, NULL); l2_resize8(NULL); l2_find8(NULL, 0); l2_get8(NULL, 0); l2_set8(NULL, 0, NULL); l2_remove8(NULL, 0); l2_alloc8(NULL, NULL, NULL); }
+
+/* Lemma (no function under contract): for every capacity 2^k, k = 1..30, the
+ * probe map NEXT(j) = (5j+1) & (cap-1) satisfies NEXT^(cap/2)(j) == j + cap/2
+ * (mod cap) for ALL j.  Hence NEXT^cap = identity and no orbit has a length
+ * dividing cap/2: every orbit has length exactly cap -- the probe sequence is a
+ * single cycle through all slots.  (a,c) is NEXT^(2^(k-1)) written as the
+ * affine map j -> a*j + c (mod 2^32), obtained by repeated squaring with
+ * concrete constants; each doubling step is checked for all j. */
+void
+h_cycle_lemma(void)
+{
+	uint32_t j = nondet_u32();
+	uint32_t a = 5, c = 1; /* NEXT itself: ID_NEXT(m, j) == (j * 5 + 1) & (cap - 1) */
+	for (unsigned k = 1; k <= 30; k++) {
+		uint32_t mask = ((uint32_t) 1 << k) - 1, half = (uint32_t) 1 << (k - 1);
+		uint32_t a2 = a * a, c2 = a * c + c;
+		__CPROVER_assert(((a * j + c) & mask) == ((j + half) & mask), "probe cycle: NEXT^(cap/2)(j) == j + cap/2 (mod cap)");
+		__CPROVER_assert(a * (a * j + c) + c == a2 * j + c2, "probe cycle: doubling step (affine composition) for all j");
+		a = a2;
+		c = c2;
+	}
+	VP_CANARY();
+}
